@@ -9,6 +9,9 @@ from .wlayout import W, split_structure, recv_is_param0
 LEXMAX = re.compile(r"^(?P<c>.+)\.iter\(\)\.map\(λ\(\.(?P<a>\w+),\.(?P<b>\w+)\)\)\.max\(\)\.unwrap\(\)#(?P<i>[01])$")
 
 
+LEXMAXKEY = re.compile(r"^(?P<c>.+)\.iter\(\)\.max_by_key\(λ\(\.(?P<a>\w+),\.(?P<b>\w+)\)\)\.unwrap\(\)\.(?P<f>\w+)$")
+
+
 def _end_pair_ok(fn, n_chrom, n_base, coll_hint, fields):
     """(end_chrom, end_base) is the lexicographic max over every child of (fields[0], fields[1])."""
     oc, ob = origin(fn, n_chrom), origin(fn, n_base)
@@ -16,6 +19,11 @@ def _end_pair_ok(fn, n_chrom, n_base, coll_hint, fields):
     if mc and mb and mc.group("c") == mb.group("c") and mc.group("i") == "0" and mb.group("i") == "1" and \
             (mc.group("a"), mc.group("b")) == tuple(fields) == (mb.group("a"), mb.group("b")):
         return "max", mc.group("c")
+    # `children.iter().max_by_key(|n| (n.a, n.b)).unwrap()` read field by field: the element holding the lexicographic maximum
+    kc, kb = LEXMAXKEY.match(oc), LEXMAXKEY.match(ob)
+    if kc and kb and kc.group("c") == kb.group("c") and (kc.group("a"), kc.group("b")) == tuple(fields) == (kb.group("a"), kb.group("b")) \
+            and kc.group("f") == fields[0] and kb.group("f") == fields[1]:
+        return "max", kc.group("c")
     lc, lb = last_of(fn, n_chrom), last_of(fn, n_base)
     if lc is not None and lb is not None and lc[0] == lb[0] and lc[1] == [fields[0]] and lb[1] == [fields[1]]:
         return "last", lc[0]
